@@ -46,7 +46,7 @@ ASSUMPTIONS = [
     "the reduced system is solved with dense numpy.linalg.solve (not part of the code under test)",
 ]
 BOUNDS = {
-    "quick": "G0 (3 cells): 36 creation/set orders x all 54 splits x default@s1 (+ dense@s1, default@s0 on 2 orders) at depth 1; depth 2 over 24 operations on 2 systems; G1 (md): 38 whole + 3 restricted splits x 3 at depth 1, depth 2 over 26 operations on 1 system",
+    "quick": "G0 (3 cells): 36 creation/set orders x 18 whole splits x default@s1, 2 orders x all 54 splits x {default@s1, dense@s1, default@s0} at depth 1; depth 2 over 24 operations on 2 systems; G1 (md): 38 whole + 3 restricted splits x 3 at depth 1, depth 2 over 26 operations on 1 system",
     "thorough": "G0: 36 orders x 54 splits x 4 (inverter, state) at depth 1, depth 2 over 36 operations on 6 systems, depth 3 over 18 operations on 1 system; G1: all 5494 splits x 3 on 2 systems at depth 1, depth 2 over 82 operations on 2 systems",
 }
 MIN_CLASSES = 4
@@ -82,6 +82,7 @@ def cases(tier):
                 combos = all_combos[:3]
             else:
                 combos = all_combos[:1]
+                sp = gs.whole_splits("G0", vo, eo)
             ops = [{"split": s, "inv": i, "state": st} for s in sp for i, st in combos]
             for k in range(0, len(ops), 108):
                 out.append({"sys": ["G0", vo, eo], "prefix": [], "alphabet": ops[k:k + 108], "depth": 1})
